@@ -122,3 +122,14 @@ Definition sigs_C19 (x : input) (y : output) : list string :=
    then [] else ["foreign-path"]).
 
 Definition has_sig (s : string) (x : input) (y : output) : bool := mem s (sigs_C19 x y).
+
+(* position of each violated clause label in a list of labels given by the harness
+   (List.length names = label not in the list) *)
+Fixpoint index_of (s : string) (l : list string) (n : nat) : nat :=
+  match l with
+  | [] => n
+  | x :: r => if String.eqb x s then n else index_of s r (S n)
+  end.
+
+Definition sig_codes (names : list string) (x : input) (y : output) : list nat :=
+  map (fun s => index_of s names O) (sigs_C19 x y).
